@@ -21,16 +21,23 @@
 EXTENDS Naturals, Sequences, FiniteSets, TLC
 
 CONSTANTS
-  N,            \* number of branches (0..3)
-  MaxConc,      \* max_concurrency (0 = None)
-  MinSucc,      \* completion_config.min_successful (0 = None)
-  TolCount,     \* tolerated_failure_count (99 = None)
-  TolPct,       \* tolerated_failure_percentage (999 = None)
-  Script,       \* Script[i] : sequence of atoms; atoms: "step" (a durable step: START, function, SUCCEED), then one of
-                \*             "ok" "fail" "susp" "tsusp" "bte";  after "tsusp" the script continues when resubmitted
-  FixOrphanParent, \* BOOLEAN: TRUE = code as fixed (an update whose parent is orphaned is rejected); FALSE = pinned original
+  FixOrphanParent, \* BOOLEAN: TRUE = code as fixed (an update whose parent is orphaned / completed is rejected); FALSE = pinned original
   FixBteBranch,    \* BOOLEAN: TRUE = code as fixed (a BaseException leaving a branch still completes the executor)
   FixEmpty         \* BOOLEAN: TRUE = code as fixed (zero branches return an empty result at once)
+
+\* The configuration of the call: a *variable that never changes* (cf' = cf), so that one TLC run can validate traces of
+\* many differently configured calls.  cf = [script, maxc, mins, tolc, tolp]
+\*   script[i] : sequence of atoms; "step" (a durable step: START, function, SUCCEED), then one of "ok" "fail" "susp" "tsusp" "bte";
+\*               after "tsusp" the script continues when the branch is resubmitted
+\*   maxc : max_concurrency (0 = None); mins : min_successful (0 = None); tolc : tolerated_failure_count (99 = None);
+\*   tolp : tolerated_failure_percentage (999 = None)
+VARIABLE cf
+Script == cf.script
+N == Len(cf.script)
+MaxConc == cf.maxc
+MinSucc == cf.mins
+TolCount == cf.tolc
+TolPct == cf.tolp
 
 Br == 1..N
 NoneC == 99
@@ -123,11 +130,13 @@ MainSubmit ==
   /\ UNCHANGED <<bpos, sub, fout, scanIdx, scanT, scanI, succ, fail, event, suspExc, timers, reg, pdone, parentSent, items, reason,
                  active, maxActive, decidedAt, outcomeAt, late>>
 
+\* (fixed code: a fatal exception recorded by a branch / the timer thread is re-raised right after the wait)
 MainWake ==
   /\ mpc = "Wait" /\ event
-  /\ mpc' = "Cancel" /\ mi' = 1
+  /\ IF suspExc = "fatal" THEN mpc' = "Returned" /\ result' = "raised" /\ UNCHANGED mi
+                          ELSE mpc' = "Cancel" /\ mi' = 1 /\ UNCHANGED result
   /\ UNCHANGED <<bst, wph, bpos, sub, fout, scanIdx, scanT, scanI, succ, fail, event, suspExc, timers, reg, pdone, parentSent,
-                 items, reason, active, maxActive, decidedAt, outcomeAt, late, known, result>>
+                 items, reason, active, maxActive, decidedAt, outcomeAt, late, known>>
 
 \* future.cancel() for every initially submitted future: a queued one becomes cancelled (its callback marks it SUSPENDED)
 MainCancel ==
@@ -266,12 +275,15 @@ CbWrite(i) ==
             \* BackgroundThreadError is a BaseException: future.result() re-raises it, no except clause matches, the callback
             \* dies inside concurrent.futures (_invoke_callbacks only catches Exception): nothing is decided (faithful)
             IF FixBteBranch
-              THEN /\ bst' = [bst EXCEPT ![i] = "FAILED"] /\ fail' = fail + 1 /\ wph' = [wph EXCEPT ![i] = "cbd"]
-                   /\ UNCHANGED <<succ, timers, known>>
+              THEN \* fixed code: remember the fatal exception and set the completion event: the caller re-raises it
+                   /\ wph' = [wph EXCEPT ![i] = "idle"] /\ UNCHANGED <<bst, succ, fail, timers, known>>
               ELSE /\ wph' = [wph EXCEPT ![i] = "idle"] /\ known' = known \cup {"bte-in-branch"}
                    /\ UNCHANGED <<bst, succ, fail, timers>>
-  /\ UNCHANGED <<bpos, sub, fout, scanIdx, scanT, scanI, event, suspExc, mpc, mi, reg, pdone, parentSent, items, reason,
-                 active, maxActive, decidedAt, outcomeAt, late, result>>
+  /\ IF fout[i] = "bte" /\ FixBteBranch
+       THEN event' = TRUE /\ suspExc' = (IF event THEN suspExc ELSE "fatal") /\ UNCHANGED <<decidedAt, outcomeAt>>
+       ELSE UNCHANGED <<event, suspExc, decidedAt, outcomeAt>>
+  /\ UNCHANGED <<bpos, sub, fout, scanIdx, scanT, scanI, mpc, mi, reg, pdone, parentSent, items, reason,
+                 active, maxActive, late, result>>
 
 \* second half: should_complete() ?  else start the suspend scan
 CbDecide(i) ==
@@ -329,7 +341,8 @@ Quiet == /\ mpc = "Returned" \/ (mpc = "Wait" /\ ~event)
 
 Next == MainStep \/ (\E i \in Br : WorkerStep(i)) \/ (\E i \in Br : TimerStep(i)) \/ (Quiet /\ UNCHANGED vars)
 
-Spec == Init /\ [][Next]_vars
+NextC == Next /\ UNCHANGED cf
+Spec == Init /\ [][NextC]_<<vars, cf>>
 FairSpec == Spec /\ WF_vars(MainStep) /\ (\A i \in Br : WF_vars(WorkerStep(i))) /\ (\A i \in Br : WF_vars(TimerStep(i)))
 
 ---------------------------------------------------------------------------
